@@ -124,7 +124,11 @@ def run(prog, rep, tier, repo):
         key = 'swap-only:%s' % k
         bufs = [t for t in _ret_components(f) if tag(t) == 'call' and short(t[1]) == 'to_vec']
         if not bufs or len(bufs) != (2 if name == 'shuffle_two' else 1):
-            rep.undecided('swap-only', key, 'returned buffers are not to_vec copies of the inputs: %s' % [show(x) for x in _ret_components(f)], site_of(f.body))
+            rep.undecided('swap-only', key, 'returned buffers are not to_vec copies of the inputs: %s' % [show(x) for x in _ret_components(f)], site_of(f.body), proof=False)
+            if name == 'shuffle_two':
+                # dependent rules keep their anchor counts
+                rep.undecided('paired-swap', 'paired-swap:%s' % k, 'shuffle idiom not read', site_of(f.body), proof=False)
+                rep.undecided('len-assert', 'len-assert:%s' % k, 'shuffle idiom not read', site_of(f.body), proof=False)
             continue
         srcs = [b[2][0] for b in bufs]
         want_src = [('arg', i + 1, f.names.get(i + 1)) for i in range(len(bufs))]
@@ -184,19 +188,49 @@ def run(prog, rep, tier, repo):
         pushes = [c for c in f.calls() if c.path and short(c.path) == 'push' and c.args and rets and c.args[0] == rets[0]]
         loops = [li for li in f.loop_info() if li['item'] is not None]
         problems = []
-        if len(loops) != 1 or loops[0]['iter'] != ('range', ('const', 'usize', 0), nb):
-            problems.append('outer loop is not 0..n_bootstrap')
-        if len(pushes) != 1 or (loops and pushes[0].bb not in loops[0]['blocks']):
-            problems.append('expected exactly one push per iteration')
+        undec = []
+        from ..counts import trip_count, loops_of, appends
+        from ..poly import pshow
+        outer = [(li, appends(f, rets[0], li)) for li in loops_of(f)] if rets else []
+        outer = [(li, ap) for li, ap in outer if ap]
+        if len(outer) != 1 or len(outer[0][1]) != 1 or not outer[0][1][0][1]:
+            undec.append('no single unconditional push per iteration of one loop')
         else:
-            v = pushes[0].args[1]
+            li, ap = outer[0]
+            tc = trip_count(f, li)
+            if tc is None:
+                undec.append('trip count of the resampling loop not derived')
+            elif not peq(tc, poly(nb)):
+                problems.append('the resampling loop runs %s times, not n_bootstrap' % (pshow(tc, show) or '0'))
+            v = ap[0][0].args[1]
             sn = [x for x in subterms(v) if tag(x) == 'call' and short(x[1]) == 'sample_n']
-            if len(sn) != 1 or sn[0][2][1] != ('len', data):
-                problems.append('resample length is not len(data): %s' % (show(sn[0][2][1]) if sn else 'no sample_n'))
-            elif not _is_map_collect_over(v, sn[0]):
-                problems.append('pushed vector is not one element per sampled index')
+            length = None
+            if len(sn) == 1:
+                length = sn[0][2][1]
+                if not _is_map_collect_over(v, sn[0]):
+                    undec.append('pushed vector not read as one element per sampled index')
+            elif tag(v) == 'call' and v[1] in pdb.bodies:
+                # a helper builds the resample: its sample_n argument must be a parameter that the call binds to len(data), and it must
+                # push one data element per drawn index
+                h = prog.func(v[1])
+                hs = [c for c in h.calls() if c.path and short(c.path) == 'sample_n']
+                if len(hs) == 1 and tag(hs[0].args[1]) == 'arg' and hs[0].args[1][1] - 1 < len(v[2]):
+                    length = v[2][hs[0].args[1][1] - 1]
+                    rep.touch(v[1])
+                else:
+                    undec.append('helper %s not read' % short(v[1]))
+            else:
+                undec.append('no sample_n in the pushed value')
+            if length is not None:
+                ln = length
+                while tag(ln) == 'cast':
+                    ln = ln[2]
+                if not (ln == ('len', data) or (tag(ln) == 'call' and short(ln[1]) == 'len' and ln[2][0] == data)):
+                    problems.append('resample length is %s, not len(data)' % show(length)[:40])
         if problems:
             rep.viol('counts', key, '; '.join(problems), site_of(f.body))
+        elif undec:
+            rep.undecided('counts', key, '; '.join(undec), site_of(f.body), proof=False)
         else:
             rep.ok('counts', key, 'n_bootstrap pushes, each collected 1:1 from sample_n(len(data))')
         # D4 index range
@@ -290,6 +324,34 @@ def run(prog, rep, tier, repo):
         if f is not None:
             _check_index_dist(rep, f, 'index-range:%s%s' % (RS, name), ('arg', 1, f.names.get(1)))
     rep.floor('index-range', 3, 'bootstrap, shuffle, shuffle_two')
+
+    # ---------------------------------------------------------------- D4c resampling is oblivious to the values it moves
+    # Elements are selected by position only.  Comparing element values (a search by value, a branch on x[i] == y) makes the result depend on
+    # ties, signed zeros and NaN: rebuilding the second array of shuffle_two by looking each shuffled x up by value pairs it with the
+    # first equal x, which is not a permutation of the second array when x has repeats.
+    for name in ('bootstrap', 'jackknife', 'shuffle', 'shuffle_two'):
+        k0 = RS + name
+        f0 = prog.func(k0)
+        if f0 is None:
+            continue
+        key = 'value-oblivious:%s' % name
+        bodies = [f0] + [prog.func(b_.key) for b_ in pdb.closures_of(k0)]
+        bad = []
+        for g in bodies:
+            if g is None:
+                continue
+            pool = [c for gl in g.guards().values() for c, _ in gl] + list(g.return_values()) + [st.value for st in g.stores()]
+            for t in pool:
+                for z in subterms(t):
+                    if tag(z) == 'bin' and len(z) > 4 and z[4] in ('f64', 'f32') and z[1] in ('Eq', 'Ne', 'Lt', 'Le', 'Gt', 'Ge'):
+                        bad.append(show(z)[:60])
+                    if tag(z) == 'call' and z[1].endswith('PartialEq<&B> for &A>::eq') or (tag(z) == 'call' and 'cmp::PartialEq' in z[1] and 'f64' in z[1]):
+                        bad.append(show(z)[:60])
+        if bad:
+            rep.viol('value-oblivious', key, '%s compares element values (%s): resampling must move elements by position only' % (name, bad[0]), site_of(f0.body))
+        else:
+            rep.ok('value-oblivious', key, 'no comparison of element values')
+    rep.floor('value-oblivious', 4, 'bootstrap, jackknife, shuffle, shuffle_two')
 
     # ---------------------------------------------------------------- D5
     check_rng_precondition(prog, rep)
